@@ -77,6 +77,26 @@ def run(ctx):
                     bad.append((i, o))
     ctx.obligation("oracle on the real engine: analysis through facts == whole-graph analysis on %d multi-package scenarios with arbitrary import DAGs (%d failures outside the claimed domain: pending controlled trigger, F15)" % (len(scs), outside), ran and not bad)
     ctx.obligation("in-memory facts and gob round-tripped facts give identical engine results", ran and not gobdiff)
+    # the model's facts against the real ones (what an importer receives), and a directed search when they differ
+    if ran:
+        rcm, model, _ = eg.run_model(lines)
+        mism = [i for i in range(len(scs)) if rcm == 0 and es.project(gob[i], "export") != es.project(model[i], "export")]
+        ctx.obligation("correspondence: the facts published by the real engine == the model's on %d multi-package scenarios" % len(scs), rcm == 0 and not mism)
+        found = False
+        for i in mism[:40]:
+            r = eg.parse_result_line(gob[i])
+            if r is None or any(p["conflicts"] for p in r):
+                continue
+            f = c06.probe_pairs(scs[i])
+            if f:
+                sc2, o = f
+                small = eg.shrink(sc2, lambda c: len(c.pkgs) >= 2 and (lambda rr: rr[0] is not None and not rr[1])(c06.eval_downstream(c)))
+                ctx.violation("facts", "C03 fails on the real engine: %s\nminimised:\n%s\nwhole-graph scenario: %s\n" % (c06.eval_downstream(small)[0], small.pretty(), c06.mono(small).line()))
+                found = True
+                break
+        if mism and not found:
+            ctx.violation("correspondence", "the facts published by the real engine differ from the model's (theorems C03_* no longer speak about the code); no scenario was found on which analysis through facts differs from whole-graph analysis\n%s\nreal:  %s\nmodel: %s\n" % (
+                scs[mism[0]].pretty(), gob[mism[0]], model[mism[0]]), found_input=False)
 
     # ---- whole tool: three drivers on real multi-package modules
     rng = random.Random(ctx.seed + 12)
